@@ -1,5 +1,7 @@
 import HcipyVerif.Model.PhaseOptics
 import HcipyVerif.Lemmas.Jones
+import HcipyVerif.Lemmas.PassiveOptics
+import HcipyVerif.Lemmas.PhaseOptics
 import HcipyVerif.Gen.PhaseCoef
 import HcipyVerif.Gen.Stokes
 import Mathlib.Analysis.Complex.Exponential
@@ -13,6 +15,7 @@ import Mathlib.Tactic.Ring
 import Mathlib.Tactic.FieldSimp
 import Mathlib.Tactic.Linarith
 import Mathlib.Tactic.Positivity
+import Mathlib.Algebra.Order.Field.Rat
 
 /-!
 # C07 — passive optics never create power; phase-only optics conserve it exactly
@@ -21,6 +24,10 @@ import Mathlib.Tactic.Positivity
 phase-only element family it holds the rational coefficient κ of the multiplier
 `exp(i · κ · unit · parameter)` that `forward` (`…Fwd`) and `backward` (`…Bwd`) apply to every pixel.
 The theorems are stated for an arbitrary unimodular character `χ` (instantiated by `t ↦ exp(i t)`).
+
+Round 4: the passive half and the total-power / backward clauses are stated about the executable model
+`Model/PassiveOptics.lean` (`maskFwd`, `maskBwd`, `power`, `fibreAmp`, `fibreBack`, `knifeRow`) that driver ops `mask`, `fibre`,
+`knife`, `knifet` run on the numbers the code sees; the generic inequalities they instantiate live in `Lemmas/PhaseOptics.lean`.
 -/
 set_option linter.unusedSimpArgs false
 set_option linter.unusedVariables false
@@ -28,51 +35,9 @@ set_option linter.unusedSectionVars false
 
 namespace HcipyVerif.C07
 open HcipyVerif.PhaseOptics HcipyVerif.Gen.PhaseCoef Finset
-
-/-- A unimodular character `ℝ → ℂ` (abstract `t ↦ exp(i t)`). -/
-structure UChar where
-  χ : ℝ → ℂ
-  add : ∀ a b, χ (a + b) = χ a * χ b
-  zero : χ 0 = 1
-  conj : ∀ a, (starRingEnd ℂ) (χ a) = χ (-a)
-
-/-- The character the code uses: `t ↦ exp(i t)` (so no axiom is hidden in `UChar`). -/
-noncomputable def expChar : UChar where
-  χ := fun t => Complex.exp (t * Complex.I)
-  add := by intro a b; rw [← Complex.exp_add]; congr 1; push_cast; ring
-  zero := by simp
-  conj := by
-    intro a
-    rw [← Complex.exp_conj]
-    congr 1
-    simp [Complex.conj_ofReal]
-
-theorem UChar.mul_neg (c : UChar) (a : ℝ) : c.χ a * c.χ (-a) = 1 := by
-  rw [← c.add, add_neg_cancel, c.zero]
-
-theorem UChar.normSq_eq_one (c : UChar) (a : ℝ) : Complex.normSq (c.χ a) = 1 := by
-  have h : ((Complex.normSq (c.χ a) : ℝ) : ℂ) = 1 := by
-    rw [Complex.normSq_eq_conj_mul_self, c.conj, mul_comm, c.mul_neg]
-  exact_mod_cast h
+open HcipyVerif.Passive HcipyVerif.Jones
 
 /-! ## Phase-only elements -/
-
-/-- Per-pixel power (intensity × cell area) is unchanged by any unimodular multiplier. -/
-theorem phase_only_pixel_power (c : UChar) (E : ℂ) (φ w : ℝ) :
-    Complex.normSq (E * c.χ φ) * w = Complex.normSq E * w := by
-  rw [Complex.normSq_mul, c.normSq_eq_one, mul_one]
-
-/-- … hence total power, for any finite set of pixels, weights and per-pixel phases. -/
-theorem phase_only_total_power {ι : Type} (s : Finset ι) (c : UChar) (E : ι → ℂ) (φ w : ι → ℝ) :
-    ∑ i ∈ s, Complex.normSq (E i * c.χ (φ i)) * w i = ∑ i ∈ s, Complex.normSq (E i) * w i :=
-  Finset.sum_congr rfl fun i _ => phase_only_pixel_power c (E i) (φ i) (w i)
-
-/-- `backward` (conjugate multiplier) undoes `forward`, and vice versa. -/
-theorem phase_only_inverse (c : UChar) (E : ℂ) (φ : ℝ) :
-    E * c.χ φ * c.χ (-φ) = E ∧ E * c.χ (-φ) * c.χ φ = E := by
-  constructor
-  · rw [mul_assoc, c.mul_neg, mul_one]
-  · rw [mul_assoc, mul_comm (c.χ (-φ)), c.mul_neg, mul_one]
 
 /-- Jones-vector wavefront: both components get the same multiplier. -/
 theorem phase_only_pixel_power_vector (c : UChar) (E1 E2 : ℂ) (φ w : ℝ) :
@@ -106,6 +71,14 @@ def genCoef (f : Family) (d : Dir) (n : Rat) : Rat :=
   | .tipTiltMirror, .fwd => tipTiltMirrorFwd | .tipTiltMirror, .bwd => tipTiltMirrorBwd
   | .microLensArray, .fwd => microLensArrayFwd | .microLensArray, .bwd => microLensArrayBwd
   | .atmosphericLayer, .fwd => atmosphericLayerFwd | .atmosphericLayer, .bwd => atmosphericLayerBwd
+  | .thinLens, .fwd => thinLensFwdN0 + thinLensFwdN1 * n | .thinLens, .bwd => thinLensBwdN0 + thinLensBwdN1 * n
+  | .tiltElement, .fwd => tiltElementFwdN0 + tiltElementFwdN1 * n
+  | .tiltElement, .bwd => tiltElementBwdN0 + tiltElementBwdN1 * n
+  | .thinPrism, .fwd => thinPrismFwdN0 + thinPrismFwdN1 * n | .thinPrism, .bwd => thinPrismBwdN0 + thinPrismBwdN1 * n
+  | .prism, .fwd => prismFwdN0 + prismFwdN1 * n | .prism, .bwd => prismBwdN0 + prismBwdN1 * n
+  | .phaseGrating, .fwd => phaseGratingFwd | .phaseGrating, .bwd => phaseGratingBwd
+  | .unimodularApodizer, .fwd => unimodularApodizerFwd | .unimodularApodizer, .bwd => unimodularApodizerBwd
+  | .multiLayerAtmosphere, .fwd => multiLayerAtmosphereFwd | .multiLayerAtmosphere, .bwd => multiLayerAtmosphereBwd
 
 /-- In every family the identified backward exponent is minus the forward one
 (a factor-of-two or sign slip in one direction breaks this). -/
@@ -115,6 +88,9 @@ theorem gen_backward_coef_eq_neg_forward (f : Family) (n : ℚ) :
   simp only [genCoef, phaseApodizerFwd, phaseApodizerBwd, surfaceApodizerFwdN0, surfaceApodizerFwdN1,
     surfaceApodizerBwdN0, surfaceApodizerBwdN1, deformableMirrorFwd, deformableMirrorBwd, segmentedMirrorFwd,
     segmentedMirrorBwd, tipTiltMirrorFwd, tipTiltMirrorBwd, microLensArrayFwd, microLensArrayBwd,
+    thinLensFwdN0, thinLensFwdN1, thinLensBwdN0, thinLensBwdN1, tiltElementFwdN0, tiltElementFwdN1, tiltElementBwdN0,
+    tiltElementBwdN1, thinPrismFwdN0, thinPrismFwdN1, thinPrismBwdN0, thinPrismBwdN1, prismFwdN0, prismFwdN1, prismBwdN0, prismBwdN1,
+    phaseGratingFwd, phaseGratingBwd, unimodularApodizerFwd, unimodularApodizerBwd, multiLayerAtmosphereFwd, multiLayerAtmosphereBwd,
     atmosphericLayerFwd, atmosphericLayerBwd] <;> ring
 
 /-- The identified exponents are the model's formulas: `1·φ`, `(n−1)·k·sag`, `2·k·surface`,
@@ -124,6 +100,9 @@ theorem gen_coef_eq_model (f : Family) (d : Dir) (n : ℚ) : genCoef f d n = coe
   simp only [genCoef, coef, coefFwd, phaseApodizerFwd, phaseApodizerBwd, surfaceApodizerFwdN0, surfaceApodizerFwdN1,
     surfaceApodizerBwdN0, surfaceApodizerBwdN1, deformableMirrorFwd, deformableMirrorBwd, segmentedMirrorFwd,
     segmentedMirrorBwd, tipTiltMirrorFwd, tipTiltMirrorBwd, microLensArrayFwd, microLensArrayBwd,
+    thinLensFwdN0, thinLensFwdN1, thinLensBwdN0, thinLensBwdN1, tiltElementFwdN0, tiltElementFwdN1, tiltElementBwdN0,
+    tiltElementBwdN1, thinPrismFwdN0, thinPrismFwdN1, thinPrismBwdN0, thinPrismBwdN1, prismFwdN0, prismFwdN1, prismBwdN0, prismBwdN1,
+    phaseGratingFwd, phaseGratingBwd, unimodularApodizerFwd, unimodularApodizerBwd, multiLayerAtmosphereFwd, multiLayerAtmosphereBwd,
     atmosphericLayerFwd, atmosphericLayerBwd] <;> ring
 
 /-- For every family of the running code, `backward ∘ forward = id` and `forward ∘ backward = id` on
@@ -136,52 +115,54 @@ theorem family_backward_inverts_forward (c : UChar) (f : Family) (n : ℚ) (E : 
   rw [h]
   exact phase_only_inverse c E _
 
-/-- … and conserves the power of every pixel. -/
-theorem family_pixel_power (c : UChar) (f : Family) (d : Dir) (n : ℚ) (E : ℂ) (u p w : ℝ) :
-    Complex.normSq (E * c.χ ((genCoef f d n : ℝ) * u * p)) * w = Complex.normSq E * w :=
-  phase_only_pixel_power c E _ w
+/-- The multiplier of the running code (κ from the generated table) **is** the model's multiplier
+`χ(coef f d n · u · p)` — this is where κ matters: a wrong coefficient in the code changes `genCoef` and breaks
+`gen_coef_eq_model` — and, being a value of the unimodular character, conserves the power of the pixel.
+(Replaces round 3's `family_pixel_power`, which did not depend on κ.) -/
+theorem family_multiplier_eq_model (c : UChar) (f : Family) (d : Dir) (n : ℚ) (E : ℂ) (u p w : ℝ) :
+    c.χ ((genCoef f d n : ℝ) * u * p) = c.χ ((coef f d n : ℝ) * u * p) ∧
+    Complex.normSq (E * c.χ ((genCoef f d n : ℝ) * u * p)) * w = Complex.normSq E * w := by
+  rw [gen_coef_eq_model]
+  exact ⟨rfl, phase_only_pixel_power c E _ w⟩
 
 /-! ## Magnifier -/
-
-/-- Field divided by `s = sqrt |M₁ M₂|`, weights multiplied by `|M₁ M₂|`: per-pixel power is conserved
-for either sign of each magnification (`m = |M₁ M₂| > 0`, `s² = m`). -/
-theorem magnifier_pixel_power (E : ℂ) (w m s : ℝ) (hm : 0 < m) (hs : s * s = m) :
-    Complex.normSq (E / (s : ℂ)) * (w * m) = Complex.normSq E * w := by
-  have hs0 : s ≠ 0 := by intro h; rw [h] at hs; linarith
-  rw [Complex.normSq_div, Complex.normSq_ofReal, hs]
-  field_simp
-
-/-- The divisor used by the (repaired) code satisfies the hypotheses of `magnifier_pixel_power`. -/
-theorem magnifier_divisor_ok (m1 m2 : ℝ) (h1 : m1 ≠ 0) (h2 : m2 ≠ 0) :
-    0 < |m1 * m2| ∧ Real.sqrt |m1 * m2| * Real.sqrt |m1 * m2| = |m1 * m2| :=
-  ⟨abs_pos.mpr (mul_ne_zero h1 h2), Real.mul_self_sqrt (abs_nonneg _)⟩
-
-/-- `backward` (multiply by `s`, scale the grid by `1/M`) undoes `forward`. -/
-theorem magnifier_backward_inverse (E : ℂ) (s x m : ℝ) (hs : s ≠ 0) (hm : m ≠ 0) :
-    E / (s : ℂ) * (s : ℂ) = E ∧ x * m * (1 / m) = x := by
-  have hs' : (s : ℂ) ≠ 0 := by exact_mod_cast hs
-  exact ⟨div_mul_cancel₀ E hs', by field_simp⟩
 
 /-- The model of the weights / divisor agrees with the real-number statement (`|·|` of the product),
 and the unrepaired divisor `sqrt (M₁ M₂)` does not exist for magnifications of opposite sign. -/
 theorem magnifier_old_counterexample : magDivisorSqOld 2 (-1) = none ∧ magDivisorSq 2 (-1) = 2 ∧ magWeightFactor 2 (-1) = 2 := by
   refine ⟨?_, ?_, ?_⟩ <;> norm_num [magDivisorSqOld, magDivisorSq, magWeightFactor, absRat]
 
+/-- The model's `absRat` is the absolute value. -/
+theorem absRat_eq_abs (q : ℚ) : absRat q = |q| := by
+  unfold absRat
+  split
+  · rename_i h; rw [abs_of_neg h]
+  · rename_i h; rw [abs_of_nonneg (not_lt.mp h)]
+
+/-- In the executable magnifier model the weight factor and the squared field divisor are the same number … -/
+theorem magWeightFactor_eq_divisorSq (m1 m2 : ℚ) : magWeightFactor m1 m2 = magDivisorSq m1 m2 := rfl
+
+/-- … namely `|M₁ M₂|`. -/
+theorem magDivisorSq_cast (m1 m2 : ℚ) : ((magDivisorSq m1 m2 : ℚ) : ℝ) = |(m1 : ℝ) * (m2 : ℝ)| := by
+  unfold magDivisorSq
+  rw [absRat_eq_abs]; push_cast; rfl
+
+/-- **Audit R4.** Per-pixel power is conserved by the *executable* magnifier model (what driver op `magnify`
+evaluates and the harness compares with `Magnifier.forward`): field divided by `sqrt (magDivisorSq m₁ m₂)`, weight
+multiplied by `magWeightFactor m₁ m₂`, for all non-zero rational magnifications of either sign. -/
+theorem magnifier_model_power (m1 m2 : ℚ) (h1 : m1 ≠ 0) (h2 : m2 ≠ 0) (E : ℂ) (w : ℝ) :
+    Complex.normSq (E / ((Real.sqrt ((magDivisorSq m1 m2 : ℚ) : ℝ) : ℝ) : ℂ)) * (w * ((magWeightFactor m1 m2 : ℚ) : ℝ))
+      = Complex.normSq E * w := by
+  have hpos : 0 < ((magDivisorSq m1 m2 : ℚ) : ℝ) := by
+    rw [magDivisorSq_cast]
+    exact abs_pos.mpr (mul_ne_zero (by exact_mod_cast h1) (by exact_mod_cast h2))
+  rw [magWeightFactor_eq_divisorSq, Complex.normSq_div, Complex.normSq_ofReal, Real.mul_self_sqrt hpos.le]
+  field_simp
+
+/-- The hypotheses are satisfiable by magnifications of opposite sign. -/
+example : (2 : ℚ) ≠ 0 ∧ (-1 / 2 : ℚ) ≠ 0 := by norm_num
+
 /-! ## Passive elements -/
-
-/-- A mask with `|t| ≤ 1` never increases the power of a pixel (`w ≥ 0`). -/
-theorem mask_passive (E t : ℂ) (w : ℝ) (ht : Complex.normSq t ≤ 1) (hw : 0 ≤ w) :
-    Complex.normSq (E * t) * w ≤ Complex.normSq E * w := by
-  rw [Complex.normSq_mul]
-  have : Complex.normSq E * Complex.normSq t ≤ Complex.normSq E * 1 :=
-    mul_le_mul_of_nonneg_left ht (Complex.normSq_nonneg E)
-  nlinarith [Complex.normSq_nonneg E]
-
-/-- hence total power. -/
-theorem mask_passive_total {ι : Type} (s : Finset ι) (E t : ι → ℂ) (w : ι → ℝ)
-    (ht : ∀ i ∈ s, Complex.normSq (t i) ≤ 1) (hw : ∀ i ∈ s, 0 ≤ w i) :
-    ∑ i ∈ s, Complex.normSq (E i * t i) * w i ≤ ∑ i ∈ s, Complex.normSq (E i) * w i :=
-  Finset.sum_le_sum fun i hi => mask_passive (E i) (t i) (w i) (ht i hi) (hw i hi)
 
 /-- A linear polariser `[[c², cs], [cs, s²]]` (`c² + s² = 1`) never increases the intensity of a
 Jones vector (it is an orthogonal projector). -/
@@ -202,72 +183,248 @@ theorem polarizer_passive (c s : ℝ) (h : c ^ 2 + s ^ 2 = 1) (e : Jones.V2 ℝ)
   rw [h, one_mul] at e1 e2
   nlinarith [sq_nonneg (s * pr - c * qr), sq_nonneg (s * pi - c * qi)]
 
-/-- A diagonal filter with `|D k| ≤ 1` does not increase the energy of a spectrum. -/
-theorem diagonal_filter_contracts {ι : Type} (s : Finset ι) (D a : ι → ℂ) (hD : ∀ k ∈ s, Complex.normSq (D k) ≤ 1) :
-    ∑ k ∈ s, Complex.normSq (D k * a k) ≤ ∑ k ∈ s, Complex.normSq (a k) := by
-  apply Finset.sum_le_sum
-  intro k hk
-  rw [Complex.normSq_mul]
-  have := mul_le_mul_of_nonneg_right (hD k hk) (Complex.normSq_nonneg (a k))
+/-! ## Executable passive model -/
+
+theorem phase_model_pixel_power (t E : ℕ → Cx ℝ) (w : ℕ → ℝ) (i : ℕ) (ht : (t i).normSq = 1) :
+    (maskFwd t E i).normSq * w i = (E i).normSq * w i ∧ (maskBwd t E i).normSq * w i = (E i).normSq * w i := by
+  simp only [maskFwd, maskBwd, Cx.normSq_mul', Cx.normSq_conj', ht, mul_one, and_self]
+
+theorem phase_model_total_power (t E : ℕ → Cx ℝ) (w : ℕ → ℝ) (n : ℕ) (ht : ∀ i < n, (t i).normSq = 1) :
+    power (maskFwd t E) w n = power E w n := by
+  rw [power_eq_sum, power_eq_sum]
+  exact Finset.sum_congr rfl fun i hi => (phase_model_pixel_power t E w i (ht i (Finset.mem_range.mp hi))).1
+
+theorem phase_model_inverse (t E : ℕ → Cx ℝ) (i : ℕ) (ht : (t i).normSq = 1) :
+    maskBwd t (maskFwd t E) i = E i ∧ maskFwd t (maskBwd t E) i = E i := by
+  simp only [Cx.normSq] at ht
+  constructor <;>
+  · apply cx_ext <;>
+    simp only [maskFwd, maskBwd, Cx.mul_re, Cx.mul_im, Cx.conj_re, Cx.conj_im]
+    · linear_combination (E i).re * ht
+    · linear_combination (E i).im * ht
+
+theorem mask_model_passive (t E : ℕ → Cx ℝ) (w : ℕ → ℝ) (n : ℕ) (ht : ∀ i < n, (t i).normSq ≤ 1)
+    (hw : ∀ i < n, 0 ≤ w i) :
+    power (maskFwd t E) w n ≤ power E w n ∧ power (maskBwd t E) w n ≤ power E w n := by
+  rw [power_eq_sum, power_eq_sum, power_eq_sum]
+  constructor <;>
+  · apply Finset.sum_le_sum
+    intro i hi
+    have hi' := Finset.mem_range.mp hi
+    simp only [maskFwd, maskBwd, Cx.normSq_mul', Cx.normSq_conj']
+    have h1 := ht i hi'
+    have h2 := hw i hi'
+    have h3 := Cx.normSq_nonneg' (E i)
+    nlinarith [mul_nonneg h3 h2]
+
+theorem polarizer_passive_tensor (c s : ℝ) (h : c ^ 2 + s ^ 2 = 1) (e : J2 ℝ) (sv : S4 ℝ) (ha : 0 ≤ sv.i)
+    (hphys : sv.q ^ 2 + sv.u ^ 2 + sv.v ^ 2 ≤ sv.i ^ 2) :
+    (jonesStokes (polarizer c s * e) sv).i ≤ (jonesStokes e sv).i := by
+  have h1 := polarizer_ports_split c s h e sv
+  have h2 := jonesStokes_i_nonneg (polarizer (-s) c * e) sv ha hphys
   linarith
 
-/-- Cropping (restricting to a subset of the samples) does not increase the energy. -/
-theorem crop_contracts {ι : Type} (s t : Finset ι) (hst : s ⊆ t) (a : ι → ℂ) :
-    ∑ k ∈ s, Complex.normSq (a k) ≤ ∑ k ∈ t, Complex.normSq (a k) :=
-  Finset.sum_le_sum_of_subset_of_nonneg hst fun k _ _ => Complex.normSq_nonneg (a k)
+/-- **Executable fibre model** (`Passive.fibreAmp`, driver op `fibre`): the coupled power is at most the
+input power times the mode norm `Σ|m|²w` (which the code normalises to 1; the driver reports it). -/
+theorem fibre_model_passive (E m : ℕ → Cx ℝ) (w : ℕ → ℝ) (n : ℕ) (hw : ∀ i < n, 0 ≤ w i) :
+    (fibreAmp E m w n).normSq ≤ power E w n * power m w n := by
+  rw [Cx.toComplex_normSq, fibreAmp_toComplex, power_eq_sum, power_eq_sum]
+  have := fibre_cauchy_schwarz (Finset.range n) (fun i => (E i).toComplex) (fun i => (m i).toComplex) w
+    (fun i hi => hw i (Finset.mem_range.mp hi))
+  simpa only [← Cx.toComplex_normSq] using this
 
-/-- **Knife-edge coronagraph** `crop ∘ F⁻¹ ∘ D ∘ F ∘ pad` (optionally between two masks) with
-`0 ≤ D ≤ 1`: given that `F` and `F⁻¹` preserve the energy `en` up to the usual constant scale
-(unitary transform — this is C02's Parseval), that zero-padding preserves it and that the diagonal filter
-and the crop contract it (the two lemmas above), the output energy is at most the input energy. -/
-theorem knife_edge_passive {V W : Type} (enV : V → ℝ) (enW : W → ℝ)
-    (pad : V → W) (crop : W → V) (F Fi D : W → W) (κ : ℝ) (hκ : 0 < κ)
-    (hpad : ∀ x, enW (pad x) = enV x) (hcrop : ∀ y, enV (crop y) ≤ enW y)
-    (hF : ∀ y, enW (F y) = κ * enW y) (hFi : ∀ y, enW (Fi y) = κ⁻¹ * enW y)
-    (hD : ∀ y, enW (D y) ≤ enW y) (x : V) :
-    enV (crop (Fi (D (F (pad x))))) ≤ enV x := by
-  calc enV (crop (Fi (D (F (pad x))))) ≤ enW (Fi (D (F (pad x)))) := hcrop _
-    _ = κ⁻¹ * enW (D (F (pad x))) := hFi _
-    _ ≤ κ⁻¹ * enW (F (pad x)) := mul_le_mul_of_nonneg_left (hD _) (inv_nonneg.mpr hκ.le)
-    _ = κ⁻¹ * (κ * enW (pad x)) := by rw [hF]
-    _ = enW (pad x) := by field_simp
-    _ = enV x := hpad x
+/-- `backward` re-expands the amplitude on the mode: its power is `|a|²·Σ|m|²w`. -/
+theorem fibre_model_backward_power (a : Cx ℝ) (m : ℕ → Cx ℝ) (w : ℕ → ℝ) (n : ℕ) :
+    power (fibreBack a m) w n = a.normSq * power m w n := by
+  rw [power_eq_sum, power_eq_sum, Finset.mul_sum]
+  apply Finset.sum_congr rfl
+  intro i _
+  simp only [fibreBack, Cx.normSq_mul']; ring
 
-/-- **Single-mode fibre injection**: the coupled amplitude is `a = Σ conj(E_i) w_i m_i` with a mode
-normalised to `Σ |m_i|² w_i = 1` (`w_i ≥ 0`); its power `|a|²` (output cell area 1) is at most the
-input power `Σ |E_i|² w_i` (Cauchy–Schwarz). -/
-theorem fibre_passive {ι : Type} (s : Finset ι) (E m : ι → ℂ) (w : ι → ℝ) (hw : ∀ i ∈ s, 0 ≤ w i)
-    (hnorm : ∑ i ∈ s, Complex.normSq (m i) * w i = 1) :
-    Complex.normSq (∑ i ∈ s, (starRingEnd ℂ) (E i) * (w i : ℂ) * m i) ≤ ∑ i ∈ s, Complex.normSq (E i) * w i := by
-  -- ‖Σ z_i‖ ≤ Σ ‖z_i‖ = Σ (‖E_i‖ √w_i)(‖m_i‖ √w_i), then the real Cauchy–Schwarz inequality
-  have h1 : ‖∑ i ∈ s, (starRingEnd ℂ) (E i) * (w i : ℂ) * m i‖
-      ≤ ∑ i ∈ s, (‖E i‖ * Real.sqrt (w i)) * (‖m i‖ * Real.sqrt (w i)) := by
-    refine (norm_sum_le _ _).trans (le_of_eq ?_)
-    apply Finset.sum_congr rfl
-    intro i hi
-    rw [Complex.norm_mul, Complex.norm_mul, Complex.norm_conj, Complex.norm_real, Real.norm_of_nonneg (hw i hi)]
-    have hsq := Real.mul_self_sqrt (hw i hi)
-    calc ‖E i‖ * w i * ‖m i‖ = ‖E i‖ * (Real.sqrt (w i) * Real.sqrt (w i)) * ‖m i‖ := by rw [hsq]
-      _ = ‖E i‖ * Real.sqrt (w i) * (‖m i‖ * Real.sqrt (w i)) := by ring
-  have h2 := Finset.sum_mul_sq_le_sq_mul_sq s (fun i => ‖E i‖ * Real.sqrt (w i)) (fun i => ‖m i‖ * Real.sqrt (w i))
-  have e1 : ∑ i ∈ s, (‖E i‖ * Real.sqrt (w i)) ^ 2 = ∑ i ∈ s, Complex.normSq (E i) * w i := by
-    apply Finset.sum_congr rfl
-    intro i hi
-    rw [mul_pow, Real.sq_sqrt (hw i hi), Complex.normSq_eq_norm_sq]
-  have e2 : ∑ i ∈ s, (‖m i‖ * Real.sqrt (w i)) ^ 2 = 1 := by
-    rw [← hnorm]
-    apply Finset.sum_congr rfl
-    intro i hi
-    rw [mul_pow, Real.sq_sqrt (hw i hi), Complex.normSq_eq_norm_sq]
-  rw [e1, e2, mul_one] at h2
-  rw [Complex.normSq_eq_norm_sq]
-  have h0 : 0 ≤ ‖∑ i ∈ s, (starRingEnd ℂ) (E i) * (w i : ℂ) * m i‖ := norm_nonneg _
-  calc ‖∑ i ∈ s, (starRingEnd ℂ) (E i) * (w i : ℂ) * m i‖ ^ 2
-      ≤ (∑ i ∈ s, (‖E i‖ * Real.sqrt (w i)) * (‖m i‖ * Real.sqrt (w i))) ^ 2 := by
-        exact pow_le_pow_left₀ h0 h1 2
-    _ ≤ ∑ i ∈ s, Complex.normSq (E i) * w i := h2
+/-- **Executable knife-edge model** (`Passive.knifeRow`, driver op `knife`), any internal length `M > 0`, any
+cut-out `start + N ≤ M`, any focal mask with `|mask| ≤ 1` (the code's is 0, ½ or 1), pre-apodizer and Lyot stop
+with modulus ≤ 1: the row leaves with at most the energy it came with. -/
+theorem knife_model_passive (N M start : ℕ) (hM : 0 < M) (h : start + N ≤ M) (mask apod lyot x : ℕ → ℂ)
+    (hmask : ∀ q < M, ‖mask q‖ ≤ 1) (hap : ∀ j < N, ‖apod j‖ ≤ 1) (hly : ∀ j < N, ‖lyot j‖ ≤ 1) :
+    ∑ j ∈ Finset.range N, ‖lyot j * knifeRow N M start (NearField.kF M) (NearField.kB M) ((M : ℂ)⁻¹) mask (fun i => x i * apod i) j‖ ^ 2
+      ≤ ∑ j ∈ Finset.range N, ‖x j‖ ^ 2 := by
+  have hfil := filter_contracts (NearField.dftPair M hM) (cut_injective N M start h)
+    (D := fun q : Fin M => mask q.1) (fun q => hmask q.1 q.2) (fun j : Fin N => x j.1 * apod j.1)
+  unfold NearField.nsq at hfil
+  rw [← Fin.sum_univ_eq_sum_range (fun j => ‖lyot j * knifeRow N M start (NearField.kF M) (NearField.kB M) ((M : ℂ)⁻¹) mask (fun i => x i * apod i) j‖ ^ 2),
+    ← Fin.sum_univ_eq_sum_range (fun j => ‖x j‖ ^ 2)]
+  calc ∑ j : Fin N, ‖lyot j * knifeRow N M start (NearField.kF M) (NearField.kB M) ((M : ℂ)⁻¹) mask (fun i => x i * apod i) j‖ ^ 2
+      ≤ ∑ j : Fin N, ‖knifeRow N M start (NearField.kF M) (NearField.kB M) ((M : ℂ)⁻¹) mask (fun i => x i * apod i) j‖ ^ 2 := by
+        apply Finset.sum_le_sum
+        intro j _
+        rw [norm_mul, mul_pow]
+        have h1 := hly j.1 j.2
+        have h0 := norm_nonneg (lyot j.1)
+        have : ‖lyot j.1‖ ^ 2 ≤ 1 := by nlinarith
+        nlinarith [sq_nonneg ‖knifeRow N M start (NearField.kF M) (NearField.kB M) ((M : ℂ)⁻¹) mask (fun i => x i * apod i) j‖]
+    _ = ∑ j : Fin N, ‖NearField.filter (NearField.dftPair M hM) (cut N M start h) (fun q : Fin M => mask q.1) (fun j : Fin N => x j.1 * apod j.1) j‖ ^ 2 := by
+        apply Finset.sum_congr rfl
+        intro j _
+        rw [knifeRow_eq_filter N M start hM h mask (fun i => x i * apod i) j]
+    _ ≤ ∑ j : Fin N, ‖x j.1 * apod j.1‖ ^ 2 := hfil
+    _ ≤ ∑ j : Fin N, ‖x j.1‖ ^ 2 := by
+        apply Finset.sum_le_sum
+        intro j _
+        rw [norm_mul, mul_pow]
+        have h1 := hap j.1 j.2
+        have h0 := norm_nonneg (apod j.1)
+        have : ‖apod j.1‖ ^ 2 ≤ 1 := by nlinarith
+        nlinarith [sq_nonneg ‖x j.1‖]
 
-/-- The hypotheses of `fibre_passive` are satisfiable (one pixel, unit weight, unit mode). -/
-example : ∑ i ∈ ({0} : Finset ℕ), Complex.normSq ((fun _ => (1 : ℂ)) i) * (fun _ => (1 : ℝ)) i = 1 := by simp
+/-- The kernels the driver runs at `Rat` (Gaussian integers, `M ∣ 4`) are these DFT kernels. -/
+theorem knife_exec_kernels (M : ℕ) (hM : M = 1 ∨ M = 2 ∨ M = 4) (n : ℤ) :
+    (gaussKerF M n : Cx ℝ).toComplex = NearField.kF M n ∧ (gaussKerB M n : Cx ℝ).toComplex = NearField.kB M n :=
+  ⟨gaussKerF_eq M hM n, gaussKerB_eq M hM n⟩
+
+/-! ## Round 4: composites on the executable model -/
+
+/-- **Phase-only families on the executable model.**  Let the forward / backward multipliers of a family be the values of the
+character at `coef f d n · u · p_i` (`coef`: driver op `coef`, compared with the multiplier the code applies; `maskFwd`, `power`:
+driver op `mask`, compared with the element's `forward` / `backward` and `Wavefront.total_power`).  Then both directions conserve
+the total power `Σ|E_i|² w_i` for any weights, `backward ∘ forward = id` on every pixel, and the backward multiplier is the
+conjugate of the forward one (so `Apodizer.backward`'s `conj` is the same map). -/
+theorem family_model_roundtrip (c : UChar) (f : Family) (n : ℚ) (u : ℝ) (p : ℕ → ℝ) (tf tb E : ℕ → Cx ℝ) (w : ℕ → ℝ) (N : ℕ)
+    (hf : ∀ i, (tf i).toComplex = c.χ ((coef f .fwd n : ℝ) * u * p i))
+    (hb : ∀ i, (tb i).toComplex = c.χ ((coef f .bwd n : ℝ) * u * p i)) :
+    power (maskFwd tf E) w N = power E w N ∧ power (maskFwd tb E) w N = power E w N ∧
+    (∀ i, maskFwd tb (maskFwd tf E) i = E i) ∧ ∀ i, tb i = (tf i).conj := by
+  have nf : ∀ i, (tf i).normSq = 1 := fun i => by rw [Cx.toComplex_normSq, hf, c.normSq_eq_one]
+  have nb : ∀ i, (tb i).normSq = 1 := fun i => by rw [Cx.toComplex_normSq, hb, c.normSq_eq_one]
+  have hconj : ∀ i, tb i = (tf i).conj := by
+    intro i
+    apply Cx.toComplex_injective
+    rw [Cx.toComplex_conj, hf, hb, c.conj]
+    congr 1
+    have : coef f .bwd n = -coef f .fwd n := by
+      rw [← gen_coef_eq_model, ← gen_coef_eq_model, gen_backward_coef_eq_neg_forward]
+    rw [this]; push_cast; ring
+  refine ⟨phase_model_total_power tf E w N fun i _ => nf i, phase_model_total_power tb E w N fun i _ => nb i, ?_, hconj⟩
+  intro i
+  have := (phase_model_inverse tf E i (nf i)).1
+  unfold maskBwd at this
+  unfold maskFwd at this ⊢
+  rw [hconj i]; exact this
+
+/-- The hypotheses of `family_model_roundtrip` are satisfiable for every family (take the real and imaginary part). -/
+example (c : UChar) (f : Family) (d : Dir) (n : ℚ) (u : ℝ) (p : ℕ → ℝ) :
+    ∃ t : ℕ → Cx ℝ, ∀ i, (t i).toComplex = c.χ ((coef f d n : ℝ) * u * p i) :=
+  ⟨fun i => ⟨(c.χ ((coef f d n : ℝ) * u * p i)).re, (c.χ ((coef f d n : ℝ) * u * p i)).im⟩, fun i => rfl⟩
+
+/-- `Magnifier.backward` multiplies by the number `forward` divided by (the square root of the executable `magDivisorSq`,
+which is positive for non-zero magnifications): `backward ∘ forward = id` on the field. -/
+theorem magnifier_model_backward_inverse (m1 m2 : ℚ) (h1 : m1 ≠ 0) (h2 : m2 ≠ 0) (E : ℂ) :
+    E / ((Real.sqrt ((magDivisorSq m1 m2 : ℚ) : ℝ) : ℝ) : ℂ) * ((Real.sqrt ((magDivisorSq m1 m2 : ℚ) : ℝ) : ℝ) : ℂ) = E := by
+  have hpos : 0 < ((magDivisorSq m1 m2 : ℚ) : ℝ) := by
+    rw [magDivisorSq_cast]
+    exact abs_pos.mpr (mul_ne_zero (by exact_mod_cast h1) (by exact_mod_cast h2))
+  have : ((Real.sqrt ((magDivisorSq m1 m2 : ℚ) : ℝ) : ℝ) : ℂ) ≠ 0 := by
+    exact_mod_cast (Real.sqrt_pos.mpr hpos).ne'
+  exact div_mul_cancel₀ E this
+
+/-- With the mode normalised as the code does (`Σ|m|²w = 1`; the harness checks the model's `mnorm` output is 1 on the code's
+mode) the fibre couples at most the input power, and `backward` returns exactly the coupled power. -/
+theorem fibre_model_passive_normalised (E m : ℕ → Cx ℝ) (w : ℕ → ℝ) (n : ℕ) (hw : ∀ i < n, 0 ≤ w i) (hnorm : power m w n = 1) :
+    (fibreAmp E m w n).normSq ≤ power E w n ∧
+    power (fibreBack (fibreAmp E m w n) m) w n = (fibreAmp E m w n).normSq := by
+  have h := fibre_model_passive E m w n hw
+  rw [hnorm, mul_one] at h
+  refine ⟨h, ?_⟩
+  rw [fibre_model_backward_power, hnorm, mul_one]
+
+/-- `hnorm` is satisfiable (one pixel, unit weight, unit mode). -/
+example : power (fun _ => (⟨1, 0⟩ : Cx ℝ)) (fun _ => (1 : ℝ)) 1 = 1 := by
+  simp [power, Fft.sumRange, Cx.normSq]
+
+/-- **Scalar transmissions on polarised light** (`Passive.maskJ`, `maskV`, driver op `maskpol`, compared per pixel with
+`Apodizer` / every phase-only family acting on Jones-matrix and Jones-vector wavefronts): the whole Stokes vector of the pixel
+scales by `|t|²` — whatever the input Stokes vector. -/
+theorem mask_model_polarised_stokes (t : Cx ℝ) (e : J2 ℝ) (s : S4 ℝ) (v : V2 ℝ) :
+    (jonesStokes (maskJ t e) s).i = t.normSq * (jonesStokes e s).i ∧ (jonesStokes (maskJ t e) s).q = t.normSq * (jonesStokes e s).q ∧
+    (jonesStokes (maskJ t e) s).u = t.normSq * (jonesStokes e s).u ∧ (jonesStokes (maskJ t e) s).v = t.normSq * (jonesStokes e s).v ∧
+    (vecStokes (maskV t v)).i = t.normSq * (vecStokes v).i ∧ (vecStokes (maskV t v)).q = t.normSq * (vecStokes v).q ∧
+    (vecStokes (maskV t v)).u = t.normSq * (vecStokes v).u ∧ (vecStokes (maskV t v)).v = t.normSq * (vecStokes v).v := by
+  obtain ⟨⟨xr, xi⟩, ⟨yr, yi⟩, ⟨zr, zi⟩, ⟨wr, wi⟩⟩ := e
+  obtain ⟨a, b, c, d⟩ := s
+  obtain ⟨⟨pr, pi⟩, ⟨qr, qi⟩⟩ := v
+  obtain ⟨tr, ti⟩ := t
+  refine ⟨?_, ?_, ?_, ?_, ?_, ?_, ?_, ?_⟩ <;> (simp only [maskJ, maskV, J2.scale]; jones_model_expand; ring)
+
+/-- Phase-only elements (`|t| = 1`) leave the intensity — and the whole Stokes vector — of every partially / fully polarised pixel
+unchanged; masks with `|t| ≤ 1` never increase the intensity (for a physical input Stokes vector, where the intensity is ≥ 0). -/
+theorem mask_model_polarised_passive (t : Cx ℝ) (e : J2 ℝ) (s : S4 ℝ) (v : V2 ℝ) (ha : 0 ≤ s.i)
+    (hphys : s.q ^ 2 + s.u ^ 2 + s.v ^ 2 ≤ s.i ^ 2) :
+    (t.normSq = 1 → jonesStokes (maskJ t e) s = jonesStokes e s ∧ vecStokes (maskV t v) = vecStokes v) ∧
+    (t.normSq ≤ 1 → (jonesStokes (maskJ t e) s).i ≤ (jonesStokes e s).i ∧ (vecStokes (maskV t v)).i ≤ (vecStokes v).i) := by
+  obtain ⟨h1, h2, h3, h4, h5, h6, h7, h8⟩ := mask_model_polarised_stokes t e s v
+  constructor
+  · intro ht
+    rw [ht, one_mul] at h1 h2 h3 h4 h5 h6 h7 h8
+    constructor
+    · cases hj : jonesStokes (maskJ t e) s; cases hk : jonesStokes e s
+      rw [hj, hk] at h1 h2 h3 h4; simp only at h1 h2 h3 h4; rw [h1, h2, h3, h4]
+    · cases hj : vecStokes (maskV t v); cases hk : vecStokes v
+      rw [hj, hk] at h5 h6 h7 h8; simp only at h5 h6 h7 h8; rw [h5, h6, h7, h8]
+  · intro ht
+    have i1 := jonesStokes_i_nonneg e s ha hphys
+    have i2 : 0 ≤ (vecStokes v).i := by
+      obtain ⟨⟨pr, pi⟩, ⟨qr, qi⟩⟩ := v
+      jones_model_expand
+      nlinarith [mul_self_nonneg pr, mul_self_nonneg pi, mul_self_nonneg qr, mul_self_nonneg qi]
+    rw [h1, h5]
+    constructor <;> nlinarith
+
+/-- The hypotheses are satisfiable: unpolarised input, a half-transparent pixel. -/
+example : (0 : ℝ) ≤ (⟨1, 0, 0, 0⟩ : S4 ℝ).i ∧ (⟨1, 0, 0, 0⟩ : S4 ℝ).q ^ 2 + (⟨1, 0, 0, 0⟩ : S4 ℝ).u ^ 2 + (⟨1, 0, 0, 0⟩ : S4 ℝ).v ^ 2 ≤ (⟨1, 0, 0, 0⟩ : S4 ℝ).i ^ 2
+    ∧ (⟨1 / 2, 0⟩ : Cx ℝ).normSq ≤ 1 := by
+  norm_num [Cx.normSq]
+
+/-- The whole 2-D field: the coronagraph transforms the `R` rows (columns for the `±y` directions) independently, each with its
+own slice of the pre-apodizer, of the Lyot stop and of the field, so the total energy `Σ_r Σ_j |·|²` (total power on the regular
+pupil grid, uniform weights) is not increased.  `backward` is the same pipeline with `conj lyot` in front and `conj apod` behind,
+hence also covered (the hypotheses only bound moduli). -/
+theorem knife_model_passive_rows (R N M start : ℕ) (hM : 0 < M) (h : start + N ≤ M) (mask : ℕ → ℂ)
+    (apod lyot x : ℕ → ℕ → ℂ) (hmask : ∀ q < M, ‖mask q‖ ≤ 1)
+    (hap : ∀ r < R, ∀ j < N, ‖apod r j‖ ≤ 1) (hly : ∀ r < R, ∀ j < N, ‖lyot r j‖ ≤ 1) :
+    ∑ r ∈ Finset.range R, ∑ j ∈ Finset.range N,
+        ‖lyot r j * knifeRow N M start (NearField.kF M) (NearField.kB M) ((M : ℂ)⁻¹) mask (fun i => x r i * apod r i) j‖ ^ 2
+      ≤ ∑ r ∈ Finset.range R, ∑ j ∈ Finset.range N, ‖x r j‖ ^ 2 := by
+  apply Finset.sum_le_sum
+  intro r hr
+  have hr' := Finset.mem_range.mp hr
+  exact knife_model_passive N M start hM h mask (apod r) (lyot r) (x r) hmask (hap r hr') (hly r hr')
+
+/-- Conjugation does not change the modulus: the backward direction satisfies the same hypotheses. -/
+example (z : ℂ) (h : ‖z‖ ≤ 1) : ‖(starRingEnd ℂ) z‖ ≤ 1 := by rwa [Complex.norm_conj]
+
+/-- **Total power of polarised wavefronts** (`Passive.powerJ`, `powerV` = `Wavefront.total_power` of Jones-matrix / Jones-vector
+wavefronts, driver op `powerpol`): per-pixel scalar transmissions with `|t_i| = 1` conserve it, with `|t_i| ≤ 1` never increase it,
+for arbitrary non-negative cell areas and any physical input Stokes vector. -/
+theorem mask_model_polarised_total (t : ℕ → Cx ℝ) (e : ℕ → J2 ℝ) (v : ℕ → V2 ℝ) (s : S4 ℝ) (w : ℕ → ℝ) (n : ℕ)
+    (ha : 0 ≤ s.i) (hphys : s.q ^ 2 + s.u ^ 2 + s.v ^ 2 ≤ s.i ^ 2) (hw : ∀ i < n, 0 ≤ w i) :
+    ((∀ i < n, (t i).normSq = 1) →
+      powerJ (fun i => maskJ (t i) (e i)) s w n = powerJ e s w n ∧ powerV (fun i => maskV (t i) (v i)) w n = powerV v w n) ∧
+    ((∀ i < n, (t i).normSq ≤ 1) →
+      powerJ (fun i => maskJ (t i) (e i)) s w n ≤ powerJ e s w n ∧ powerV (fun i => maskV (t i) (v i)) w n ≤ powerV v w n) := by
+  unfold powerJ powerV
+  simp only [Fft.sumRange_eq]
+  constructor
+  · intro ht
+    constructor <;>
+    · apply Finset.sum_congr rfl
+      intro i hi
+      have h := ((mask_model_polarised_passive (t i) (e i) s (v i) ha hphys).1 (ht i (Finset.mem_range.mp hi)))
+      first | rw [h.1] | rw [h.2]
+  · intro ht
+    constructor <;>
+    · apply Finset.sum_le_sum
+      intro i hi
+      have h := ((mask_model_polarised_passive (t i) (e i) s (v i) ha hphys).2 (ht i (Finset.mem_range.mp hi)))
+      have hwi := hw i (Finset.mem_range.mp hi)
+      first | exact mul_le_mul_of_nonneg_right h.1 hwi | exact mul_le_mul_of_nonneg_right h.2 hwi
 
 end HcipyVerif.C07
